@@ -182,8 +182,11 @@ func GenIngressResources(r *rng.R, w *World) {
 			switch {
 			case t < 0.35: // no port: all service ports
 				w.AddFeature("routeNoPort")
-			case t < 0.65 && sp.Name != "":
+			case t < 0.5 && sp.Name != "":
 				rt.TargetName = sp.Name
+			case t < 0.7 && sp.TargetName != "": // the name of the container port the service port targets (what `oc expose` writes)
+				rt.TargetName = sp.TargetName
+				w.AddFeature("routeNamedTargetPort")
 			case sp.TargetNum != 0:
 				rt.TargetNum = sp.TargetNum
 			default:
